@@ -568,25 +568,42 @@ def handle (line : String) : String :=
         known (" | ".intercalate m)
     | _, _ => bad id "parse"
   | "pl" :: id :: ver :: rest =>
-    match decodeDecl rest, parseVer ver with
-    | some d, some v =>
+    -- the declaration, then the declarations that share its method and path (other ranges)
+    match (splitBars rest).mapM decodeDecl, parseVer ver with
+    | some (d :: sibs), some v =>
+      -- a version-less lookup among several version-restricted declarations of one path cannot
+      -- happen on a server (an unversioned server refuses to start with versioned routes)
+      if v.isNone && !sibs.isEmpty then out id true "na" "pl-nover-siblings" "-" "-" else
+      let metaOf (e : EndpointRec) : String :=
+        let lm := lookupMeta e
+        " ".intercalate [encodeStr lm.operationId, bctName lm.bodyContentType,
+          (match lm.requestBodyMaxBytes with | some n => toString n | none => "~")]
       let look (s : Style) : String := match expand s d with
         | .error es => encodeErrs es
         | .ok e =>
-          if routedAt envOf e v then
-            let lm := lookupMeta e
-            " ".intercalate [encodeStr lm.operationId, bctName lm.bodyContentType,
-              (match lm.requestBodyMaxBytes with | some n => toString n | none => "~")]
-          else "404"
+          if routedAt envOf e v then metaOf e
+          else
+            -- the request belongs to whichever sibling's range holds the version
+            match sibs.findSome? fun o => match expand s o with
+                | .ok eo => if routedAt envOf eo v then some (metaOf eo) else none
+                | .error _ => none with
+            | some m => m
+            | none => "404"
       let m := [look .function, look .traitImpl, look .traitStub]
       let looks := splitBars impl
-      let should := match declRange d with | some r => memB v r | none => false
+      let inRange (x : Decl) : Bool := match declRange x with | some r => memB v r | none => false
+      let should := inRange d
+      let specOf (x : Decl) (o b mx : String) : Bool :=
+        o == encodeStr (x.operationId.getD x.name) && b == bctOfMime (declCt x) &&
+          mx == (match declMax x with | some n => toString n | none => "~")
       let lookSpec (l : List String) : Bool :=
         match l with
-        | [code] => !should && code == "404"
+        | [code] => !should && !sibs.any inRange && code == "404"
         | [o, b, mx] =>
-          should && o == encodeStr (d.operationId.getD d.name) && b == bctOfMime (declCt d) &&
-          mx == (match declMax d with | some n => toString n | none => "~")
+          if should then specOf d o b mx
+          else match sibs.find? inRange with
+            | some x => specOf x o b mx
+            | none => false
         | _ => false
       let specB := match looks with
         | [f, i, s] => f == i && i == s && lookSpec f
